@@ -64,8 +64,8 @@ macro_rules! ins {
 }
 
 /// @harness id=c17_ins_single_line props=C17 tier=quick unwind=40 mem=8 cap=900
-/// Single-line signatures, executed concretely: no parameter, one, two, blanks only between the parentheses, a default
-/// holding a call / a dict, `async def`, a method, and the SECOND of two functions (the first one must not be touched).
+/// Single-line signatures, executed concretely: no parameter, one, two, blanks only between the parentheses, an
+/// annotation holding a call / a dict (parentheses and a colon inside the list; defaults are the subject of c17_ins_after_default), `async def`, a method, and the SECOND of two functions (the first one must not be touched).
 #[cfg_attr(kani, kani::proof)]
 #[cfg_attr(kani, kani::stub(std::path::Path::canonicalize, stubs::canonicalize_err))]
 #[cfg_attr(kani, kani::stub(core::unicode::unicode_data::white_space::lookup, stubs::uni_white_space))]
@@ -75,8 +75,8 @@ pub fn c17_ins_single_line() {
     ins!("c17.ins.one_param", "def test_x(a):\n    pass\n", 1);
     ins!("c17.ins.two_params", "def test_x(a, b):\n    pass\n", 1);
     ins!("c17.ins.blank_parens", "def test_x( ):\n    pass\n", 1);
-    ins!("c17.ins.call_default", "def test_x(a=g()):\n    pass\n", 1);
-    ins!("c17.ins.dict_default", "def test_x(a={1: 2}):\n    pass\n", 1);
+    ins!("c17.ins.call_annotation", "def test_x(a: g()):\n    pass\n", 1);
+    ins!("c17.ins.dict_annotation", "def test_x(a: {1: 2}):\n    pass\n", 1);
     ins!("c17.ins.async", "async def test_x(a):\n    pass\n", 1);
     ins!("c17.ins.method", "class T:\n    def test_x(self):\n        pass\n", 2);
     ins!("c17.ins.second_function", "def test_a(x):\n    pass\ndef test_b():\n    pass\n", 3);
@@ -205,7 +205,7 @@ pub fn c17_ins_symbolic_one() {
 }
 
 /// @harness id=c17_ins_more_shapes props=C17 tier=quick unwind=48 mem=8 cap=900
-/// Further single-line shapes, executed concretely: an annotated parameter, `*args, **kw`, a keyword-only marker, a
+/// Further single-line shapes, executed concretely: an annotated parameter, `*args`, a keyword-only marker, a
 /// tuple annotation with brackets, a decorated function (the `def` is on line 2), a nested function (indented `def`
 /// on line 2 of an outer function), a lambda default is NOT included (it holds a colon; see c17_ins_known_shapes).
 #[cfg_attr(kani, kani::proof)]
@@ -214,7 +214,7 @@ pub fn c17_ins_symbolic_one() {
 #[cfg_attr(kani, kani::stub(core::slice::memchr::memchr, stubs::memchr_bytewise))]
 pub fn c17_ins_more_shapes() {
     ins!("c17.insx.annotated", "def test_x(a: int):\n    pass\n", 1);
-    ins!("c17.insx.star_args", "def test_x(*args, **kw):\n    pass\n", 1);
+    ins!("c17.insx.star_args", "def test_x(*args):\n    pass\n", 1);
     ins!("c17.insx.kwonly", "def test_x(a, *, b):\n    pass\n", 1);
     ins!("c17.insx.subscript_annotation", "def test_x(a: Dict[str, int]):\n    pass\n", 1);
     ins!("c17.insx.decorated", "@pytest.mark.slow\ndef test_x(a):\n    pass\n", 2);
